@@ -157,13 +157,18 @@ class Sequence:
             if invalid:
                 raise ValueError(f"Unknown variable(s) in order1: {invalid}")
         if order2:
+            # a variable paired with "magnitude" needs its 1st order derivative
+            magvars = {var for pair in order2 if "magnitude" in pair for var in pair}
+            magvars -= {"magnitude"}
             order2 = [pair for pair in order2 if not "magnitude" in pair]
             hessvars = {var for pair in order2 for var in pair}
-            invalid = hessvars - variables
+            invalid = (hessvars | magvars) - variables
             if invalid:
                 raise ValueError(f"Unknown variable(s) in order2: {invalid}")
             if not order1:
-                order1 = list(hessvars)
+                order1 = list(hessvars | magvars)
+            else:
+                order1 = list(order1) + sorted(magvars - set(order1))
 
         # build operators
         unique = {}  # unique operators
